@@ -818,3 +818,7 @@ def replay(body):
         if res['oracle_bad'] or res['rejected'] or 'WARNING: DATA RACE' in log:
             rc = 1
     return rc
+
+
+def regen_setup():
+    return regen_cursor()[:2]
